@@ -553,23 +553,29 @@ async fn deframer_part(ctx: &Ctx, rng: &mut Rng) {
             Ok(m) => ctx.viol("C05:over-cap-accepted", "a declared length above the cap was accepted", json!({"declared": declared, "returned_len": m.len()})),
         }
     }
-    // (4) end of stream inside the prefix or the body
-    for mode in [FrameMode::Handshake, FrameMode::Distribution] {
-        let msg = vec![9u8; 10];
+    // (4) end of stream inside the prefix or the body, for frames of every size class (every offset for the small
+    // ones; right behind the prefix, in the middle, one byte short and at the size-class boundaries for the large)
+    for (mode, len) in [
+        (FrameMode::Handshake, 10usize), (FrameMode::Distribution, 10), (FrameMode::Handshake, 65535), (FrameMode::Distribution, 65536), (FrameMode::Distribution, 70_000),
+        (FrameMode::Distribution, 1 << 20), (FrameMode::Distribution, (1 << 20) + 5), (FrameMode::Distribution, 3 << 20), (FrameMode::Distribution, (16 << 20) + 1),
+    ] {
+        let msg = vec![9u8; len];
         let mut full = prefix(mode, msg.len());
         full.extend_from_slice(&msg);
-        for cut in 1..full.len() {
+        let p = mode.length_prefix_size();
+        let cuts: Vec<usize> = if len <= 10 { (1..full.len()).collect() } else { vec![1, p - 1, p, p + 1, p + 4096, p + 65535, p + 65536, p + len / 2, p + (1 << 20), full.len() - 2, full.len() - 1].into_iter().filter(|c| *c < full.len()).collect() };
+        for cut in cuts {
             ctx.eval(1);
-            let de = MessageDeframer::new(mode);
+            let de = deframer_for(ctx, mode);
             let part = full[..cut].to_vec();
             let mut rd = Scripted::new(part, vec![cut], vec![cut % 2 == 0]);
-            ctx.class(&format!("eof/{}/{}", mode_name(mode), if cut < mode.length_prefix_size() { "in-prefix" } else { "in-body" }));
+            ctx.class(&format!("eof/{}/{}/{}", mode_name(mode), if cut < mode.length_prefix_size() { "in-prefix" } else { "in-body" }, match len { 0..=255 => "s", 256..=65535 => "m", 65536..=1048576 => "l", _ => "xl" }));
             match de.read_framed(&mut rd).await {
                 Err(_) => {}
                 Ok(m) => ctx.viol(
                     &format!("C05:eof-inside-frame-returns-message:{}", mode_name(mode)),
                     "end of stream inside a frame produced a (short) message",
-                    json!({"mode": mode_name(mode), "bytes_available": cut, "returned": hex_cap(&m, 16)}),
+                    json!({"mode": mode_name(mode), "declared_length": len, "bytes_available": cut, "returned_length": m.len(), "returned": hex_cap(&m, 16)}),
                 ),
             }
         }
@@ -953,7 +959,7 @@ async fn transport_part(ctx: &Ctx, rng: &mut Rng) {
 }
 
 pub fn run(ctx: &Ctx) {
-    ctx.rule("cases = message sequences (lengths 0,1,2,255,256,65535,65536,... in both framing modes) written by both framing functions and read back under a scripted transport (framers and deframers made for their mode, switched to it, or switched away and back; one pair carried across the handshake-to-distribution switch with frames of every size class behind it): ALL 2^(n-1) chunkings of every stream up to 11 (quick) / 15 (thorough) bytes with Pending between chunks, random cuts / 1-byte dribble / cuts around frame boundaries for long streams, over-long declared lengths (allocation measured), EOF at every offset inside a frame; the streaming writer over scripted write transports (every combination of 1..6 bytes accepted by the first two calls, fixed k bytes per call, random scripts; plain and truly vectored transports; Pending between calls) and through an in-memory pipe of every capacity 1..24 bytes against a concurrent reader; plus handshakes whose last message arrives glued to the first distribution frames, read partly through the connection and partly from the read half taken out of it; plus one transport object over its whole life (writes that fail for want of a connection, because the peer is gone or because it does not read until the write times out; close; connect to the next socket; mode switches), what each peer reads compared with the writes reported successful on that connection; plus the node's second read loop over a real loopback socket written in scripted slices; evaluations = frames read and judged; distinct = distinct (mode, frame-length classes, chunking style) combinations");
+    ctx.rule("cases = message sequences (lengths 0,1,2,255,256,65535,65536,... in both framing modes) written by both framing functions and read back under a scripted transport (framers and deframers made for their mode, switched to it, or switched away and back; one pair carried across the handshake-to-distribution switch with frames of every size class behind it): ALL 2^(n-1) chunkings of every stream up to 11 (quick) / 15 (thorough) bytes with Pending between chunks, random cuts / 1-byte dribble / cuts around frame boundaries for long streams, over-long declared lengths (allocation measured), EOF at every offset inside a small frame and at the telling offsets inside frames of 64 KiB .. 16 MiB; the streaming writer over scripted write transports (every combination of 1..6 bytes accepted by the first two calls, fixed k bytes per call, random scripts; plain and truly vectored transports; Pending between calls) and through an in-memory pipe of every capacity 1..24 bytes against a concurrent reader; plus handshakes whose last message arrives glued to the first distribution frames, read partly through the connection and partly from the read half taken out of it; plus one transport object over its whole life (writes that fail for want of a connection, because the peer is gone or because it does not read until the write times out; close; connect to the next socket; mode switches), what each peer reads compared with the writes reported successful on that connection; plus the node's second read loop over a real loopback socket written in scripted slices; evaluations = frames read and judged; distinct = distinct (mode, frame-length classes, chunking style) combinations");
     ctx.assume("independent framing model: big-endian length prefix (2 bytes handshake, 4 bytes distribution) followed by the data");
     let rt = tokio::runtime::Builder::new_current_thread().enable_all().build().expect("runtime");
     let mut rng = Rng::derive(ctx.seed, 5, 1);
